@@ -78,8 +78,10 @@ def gen_model(r, *, budget=6000, max_T=4, force=None):
         n_dc = max(n_dc, 1)
     if "mixed" in force:
         n_dc = max(n_dc, 2)
-    if force & {"filter", "sdaux", "divguard"}:
+    if force & {"filter", "sdaux", "divguard", "intutil"}:
         n_dc = max(n_dc, 1)
+    if "intutil" in force:
+        n_cs = max(n_cs, 1)
     if "stoch" in force:
         n_ds = max(n_ds, 1)
     if "stoch3" in force:
@@ -191,7 +193,13 @@ def gen_model(r, *, budget=6000, max_T=4, force=None):
         flat.append(r.choice(cchoices))
     if "flatd" in force and dchoices:
         flat.append(r.choice(dchoices))
+    if "intutil" in force:
+        # integer-valued utility: only discrete variables enter it, all constants are integer literals; the continuous
+        # choices are "flat" (they enter a constraint), the continuous states enter a constraint (added below)
+        flat = list(dict.fromkeys(flat + cchoices))
     uvars = [v for v in allv if v not in flat]
+    if "intutil" in force:
+        uvars = [v for v in uvars if v in disc]
     meta["flat"] = flat
     # ---- auxiliary functions (chain), float-valued, may read _period and parameters
     aux = []
@@ -227,6 +235,14 @@ def gen_model(r, *, budget=6000, max_T=4, force=None):
     qc = [c for c in cchoices if c not in flat]
     quad = r.choice(qc) if qc and r.random() < 0.6 else None
     funcs.append(_fn("utility", uargs + ([p] if p else []), lincomb(uargs, p, quad)))
+    if "intutil" in force:
+        ivars = [v for v in uvars if v in disc]
+        e = N(r.randint(-2, 2))
+        for v in ivars:
+            e = ["add", e, ["mul", N(r.choice([1, 2, -1, 3])), V(v)]]
+        r.shuffle(ivars)
+        funcs[-1] = _fn("utility", ivars, e, ints=True)
+        meta["intutil"] = True
     if "stacked" in force:
         funcs[-1]["stacked"] = True     # see dsl.mkfunc: utility written with a reduction over a stacked vector
 
@@ -461,6 +477,10 @@ def gen_model(r, *, budget=6000, max_T=4, force=None):
         r.shuffle(cargs)
         funcs.append(_fn("last_constraint", cargs, body))
         meta["ninf_family"] = True
+    if "intutil" in force:
+        for s_ in cstates:
+            if not any(s_ in f["args"] for f in funcs if f["name"].endswith("_constraint")):
+                funcs.append(_fn(f"use_{s_}_constraint", [s_], ["le", N(min(grid_points(G[s_])) - 8), V(s_)]))
     # a flat choice must still be an argument of utility or of a constraint: a choice that enters only transition
     # functions and filters is accepted by lcm but fails in the last period (known finding K9)
     for v in flat:
